@@ -21,13 +21,19 @@ const MIN_VAL: i64 = -9007199254740991; // Minimum safe integer value in JavaScr
 
 pub type Parsed<T> = Result<T, JsonPathError>;
 
+/// The blank space of RFC 9535 (`B`): space, horizontal tab, line feed, carriage return.
+/// Other Unicode white space (U+00A0, U+2003, ...) is an ordinary name character.
+fn is_blank(c: char) -> bool {
+    matches!(c, ' ' | '\t' | '\n' | '\r')
+}
+
 /// Parses a string into a [JsonPath].
 ///
 /// # Errors
 ///
 /// Returns a variant of [crate::JsonPathParserError] if the parsing operation failed.
 pub fn parse_json_path(jp_str: &str) -> Parsed<JpQuery> {
-    if jp_str != jp_str.trim() {
+    if jp_str != jp_str.trim_matches(is_blank) {
         Err(JsonPathError::InvalidJsonPath(
             "Leading or trailing whitespaces".to_string(),
         ))
@@ -59,7 +65,7 @@ pub fn segments(rule: Pair<Rule>) -> Parsed<Vec<Segment>> {
 pub fn child_segment(rule: Pair<Rule>) -> Parsed<Segment> {
     match rule.as_rule() {
         Rule::wildcard_selector => Ok(Segment::Selector(Selector::Wildcard)),
-        Rule::member_name_shorthand => Ok(Segment::name(rule.as_str().trim())),
+        Rule::member_name_shorthand => Ok(Segment::name(rule.as_str().trim_matches(is_blank))),
         Rule::bracketed_selection => {
             let mut selectors = vec![];
             for r in rule.into_inner() {
@@ -84,7 +90,7 @@ pub fn segment(child: Pair<Rule>) -> Parsed<Segment> {
     match child.as_rule() {
         Rule::child_segment => {
             let val = child.as_str().strip_prefix(".").unwrap_or_default();
-            if val != val.trim_start() {
+            if val != val.trim_start_matches(is_blank) {
                 Err(JsonPathError::InvalidJsonPath(format!(
                     "Invalid child segment `{}`",
                     child.as_str()
@@ -98,8 +104,8 @@ pub fn segment(child: Pair<Rule>) -> Parsed<Segment> {
                 .as_str()
                 .chars()
                 .nth(2)
+                .map(is_blank)
                 .ok_or(JsonPathError::empty(child.as_str()))?
-                .is_whitespace()
             {
                 Err(JsonPathError::InvalidJsonPath(format!(
                     "Invalid descendant segment `{}`",
@@ -220,7 +226,7 @@ pub fn singular_query_segments(rule: Pair<Rule>) -> Parsed<Vec<SingularQuerySegm
         match r.as_rule() {
             Rule::name_segment => {
                 segments.push(SingularQuerySegment::Name(
-                    next_down(r)?.as_str().trim().to_string(),
+                    next_down(r)?.as_str().trim_matches(is_blank).to_string(),
                 ));
             }
             Rule::index_segment => {
